@@ -14,7 +14,7 @@ FUNCTIONS = ['UnserializeTransaction', 'SerializeTransaction', 'ReadCompactSize'
              'parse_tx (instance.cpp)', 'Instance::parse_transaction amount list', 'ParseFixedPoint', 'TryHex']
 ASSUMPTIONS = ['SHA-256 compression uninterpreted on symbolic input', 'allocation never fails', 'structure bytes (counts, lengths, marker/flag) are concrete per shape, every other byte symbolic']
 OUTSIDE = ['scripts of 65535/65536 bytes (thorough tier only)', 'trailing bytes after a complete encoding (parse_tx ignores them; the property speaks of well-formed encodings)', 'more than 2 inputs/outputs']
-BOUNDS = 'tx shapes: 0..2 inputs x 0..2 outputs, script lengths {0,1,3,252,253}, witness absent / present (0..2 items of length 0..3) / mixed; every strict prefix of the small shapes; flag byte symbolic; compact size: all byte strings of length 1,3,5,9 and all uint64; amounts: 0..4 integer digits, 0..8 fractional digits (symbolic)'
+BOUNDS = 'tx shapes: 0..2 inputs x 0..2 outputs, script lengths {0,1,3,252,253}, witness absent / present (0..2 items of length 0..3, one shape with items of 253 and 252 bytes) / mixed; every strict prefix of the small shapes; flag byte symbolic; compact size: all byte strings of length 1,3,5,9 and all uint64; amounts: 0..4 integer digits, 0..8 fractional digits (symbolic)'
 
 def setup(E):
     stubs.install_all(E)
@@ -32,6 +32,7 @@ def shapes(tier):
     S.append(dict(ins=[(252, None)], outs=[253]))
     S.append(dict(ins=[(253, [3])], outs=[252]))
     S.append(dict(ins=[(1, None)], outs=[]))
+    S.append(dict(ins=[(0, [253, 252])], outs=[1]))                # witness items at the compact-size boundary
     return S
 
 def encode(shape, var):
